@@ -260,7 +260,7 @@ func VerifHarness_C16_CredentialCacheCoalesced() {
 	c := &Client{cacheData: data, authCache: map[string]authUser{}}
 	maxSteps, nPw := 3, 2
 	if vThorough() {
-		maxSteps = 4
+		nPw = 3
 	}
 	steps := vLen("steps", 1, maxSteps)
 	for s := 0; s < steps; s++ {
